@@ -33,6 +33,29 @@ def run(ctx):
         tl_, nl_ = h1common.run_h1srv(ctx, drv, limited, ctx.sub("traces_limited%d" % lim), modes="streaming", idle="inloop", cuts="whole,rand1x6", extra=["-gate", "both", "-maxwire", "300"])
         tb = tb + tl_
         nb += nl_
+    # the peer gives up inside the body (closes) while or after the handler read a
+    # part of it: the rest cannot be skipped, the connection must end, and the pooled stream object must not carry
+    # its position into a later request (the cases are interleaved with the complete ones of run B)
+    cutf = os.path.join(ctx.scratch, "stream_cut.ndjson")
+    with open(cases) as f, open(cutf, "w") as g:
+        for i, line in enumerate(f):
+            if ctx.quick and i % 2:
+                continue
+            c = json.loads(line)
+            o = c["offs"][0]
+            blen = o["end"] - o["headEnd"]
+            if blen < 2:
+                continue
+            at = [o["end"] - 1, o["end"] - 2, o["headEnd"] + blen // 2, o["headEnd"] + 1][i % 4]
+            if at <= o["headEnd"] or at >= o["end"]:
+                continue
+            c["fault"] = {"truncate": at, "wfail": 0, "maxBody": 0, "stall": False}
+            g.write(json.dumps(c) + "\n")
+            if i % 5 == 0:       # a complete streamed exchange right after it (same worker, same pools)
+                g.write(line)
+    tc_, nc_ = h1common.run_h1srv(ctx, drv, cutf, ctx.sub("traces_cut"), modes="streaming", idle="inloop", cuts="whole,rand1x6", extra=["-gate", "off"])
+    tb = tb + tc_
+    nb += nc_
     # real transports over loopback TCP
     tn = []
     nn = 0
